@@ -376,6 +376,23 @@ class Sym(object):
     def view(self, *a, **k):
         return self
 
+    def astype(self, dtype, *a, **k):
+        import numpy as np
+        kind = np.dtype(dtype).kind
+        if kind in 'iu':
+            if isinstance(self, SymReal):
+                return self.trunc()
+            if isinstance(self, SymBool):
+                return SymInt(_num(self)[1])
+            return self
+        if kind == 'f':
+            if isinstance(self, SymInt):
+                return SymReal(z3.ToReal(self.e))
+            return self
+        if kind == 'b':
+            return self != 0
+        return self
+
     def __getitem__(self, idx):
         # numpy scalars accept [...] and [()]
         if idx is Ellipsis or idx == ():
